@@ -181,6 +181,11 @@ func genHistory(c *ctx, prof histProfile, ndsRequired bool) {
 	version := 0
 	curTable := []kv{}
 	faults := 0
+	type pushed struct {
+		slots [][3]string
+		anys  []*anypb.Any
+	}
+	lastPush := map[string]pushed{}
 	ever := map[string]bool{"lds": true} // the types subscribed so far, as the script knows them (start-up, lookups)
 	for i := 0; i < prof.steps && !h.hung; i++ {
 		closed := w.m.VerifClosed()
@@ -338,6 +343,14 @@ func genHistory(c *ctx, prof histProfile, ndsRequired bool) {
 				anys = append(anys[:pos], append([]*anypb.Any{bad}, anys[pos:]...)...)
 				c.count("push=bad", 1)
 			}
+			if lp, ok := lastPush[rt]; ok && r.chance(20) {
+				// the control plane sends the very same resources again (byte for byte) under a new version and nonce - after
+				// a subscription change it re-sends its snapshot: whatever the client remembers of the earlier copy, the
+				// response is folded like any other (a name subscribed meanwhile is stored now)
+				slots, anys = lp.slots, lp.anys
+				c.count("push=identical-bytes", 1)
+			}
+			lastPush[rt] = pushed{slots, anys}
 			v, nonce := h.versionOf(rt, version), h.nextNonce()
 			c.count("push="+rt, 1)
 			h.step(obj{"o": "push", "rt": rt, "v": v, "nonce": nonce, "slots": slotsJSON(slots)}, func() {
